@@ -382,9 +382,13 @@ func (o *Obligation) Discharge(workdir string, timeoutS int, allSolvers bool, se
 func (o *Obligation) discharge(workdir string, timeoutS int, allSolvers bool, seed int, noAxioms bool) {
 	q := o.buildQuery(true, noAxioms)
 	o.Query = q
-	file := filepath.Join(workdir, sanitize(o.Name)+".smt2")
+	suffix := ".smt2"
+	if noAxioms {
+		suffix = ".noax.smt2"
+	}
+	file := filepath.Join(workdir, sanitize(o.Name)+suffix)
 	if len(file) > 200 {
-		file = filepath.Join(workdir, fmt.Sprintf("q%x.smt2", hashString(o.Name)))
+		file = filepath.Join(workdir, fmt.Sprintf("q%x%s", hashString(o.Name), suffix))
 	}
 	os.WriteFile(file, []byte(q), 0o644)
 	start := time.Now()
